@@ -529,7 +529,8 @@ func (c *DataCondition) invert() ConditionsSet {
 }
 
 func (c *ImpossibleCondition) invert() ConditionsSet {
-	return ConditionsSet{}
+	// the empty conjunct matches everything; an empty set would be dropped by Or
+	return ConditionsSet{Conditions{}}
 }
 
 func (t *queryTerm) QueryConditions(pc *parserContext) (ConditionsSet, error) {
